@@ -59,7 +59,19 @@ pub fn to_listing(
             } else {
                 let mut source_line_emitted = false;
 
-                let chunks = data.chunks(num_bytes_per_line);
+                // A row holds bytes at consecutive addresses only, starting at the row's address: the bytes of one
+                // source line may lie in several places (a loop body, a macro that emits into two segments)
+                let mut chunks = vec![];
+                let mut from = 0;
+                for to in 1..=data.len() {
+                    if to == data.len()
+                        || to - from == num_bytes_per_line
+                        || data[to].0 != data[to - 1].0 + 1
+                    {
+                        chunks.push(&data[from..to]);
+                        from = to;
+                    }
+                }
                 for chunk in chunks {
                     let pc = chunk.iter().next().unwrap().0;
                     let bytes = chunk.iter().map(|(_, bytes)| bytes).collect_vec();
